@@ -11,6 +11,17 @@ NOTES = {   # seeded changes that the checks missed when first evaluated, and wh
     "C15-m2": "missed at first (UnicodeEncodeError for a non-ASCII .string); non-ASCII strings added to the program generator and to the injected faults",
     "C11-m2": "missed at first (needs a hit during the warm-up of a >=4-way PLRU set, then a return to the first block); added the threaded-code generator that produces arbitrary fetch-block sequences",
     "C12-m2": "missed at first (dirty state survives reset(); needs allocation, reset, miss into the same way); reset() added as an operation of the cache histories (model, implementation, references)",
+    "C03-m3": "missed at first (a flush hidden in the memory VIEW clears dirty bits, then a store hit, an eviction and a re-read); inspection calls added as an operation of the cache histories",
+    "C08-m3": "missed at first by C08 (stall survives a flush when an ecall sits directly behind a jump; needs ecall adjacency); C08 got the exhaustive hazard alphabet with the flag off, generators got bare ecalls",
+    "C08-m4": "missed at first by C08 (ecall drains only behind register-writing predecessors: store; store; ecall); same strengthening as C08-m3",
+    "C11-m4": "missed at first (reset() rebuilds the cache with the wrong policy after a run); added slice icache-history: fetch histories with reset+reload against the model and a fresh cache",
+    "C13-m3": "missed at first (.string terminator written through the cache: counters/cycles footprint survives a reload); lifecycle texts now contain all data kinds, C04 compares counters after load with a data cache",
+    "C13-m4": "missed at first (TOY load keeps the old state after a late-failing or instruction-less load); TOY lifecycle loads now vary data sizes, fail late, or have no instructions",
+    "C16-m4": "missed at first (table rows cached per word, dropped by the unwrapped address; needs five-stage + negative effective address + inspect between two stores); generators now emit top-of-memory accesses through x0 and repeated stores to hot locations",
+    "C02-m3": "missed at first by C02 (five-stage stores bypass an enabled data cache); C02's random mode comparison now also runs with caches (C03/C09 program slices catch it too)",
+    "C02-m4": "missed at first (a canonical nop treated as a bubble by the ecall drain: instr; nop; printing ecall prints twice); the canonical nop joined the exhaustive hazard alphabet and the ALU generator",
+    "C15-m3": "missed at first (tokenisation cache keyed by line text keeps a stale line number across loads on one simulation object); the error streams now also load every text into a long-lived simulation object after a related earlier load",
+    "C15-m4": "missed at first (catastrophic regular expression: load never terminates); pathological comment/quote lines added and a process-level watchdog reports non-terminating cases",
     "C04-m2": "missed at first (parser object reused across loads keeps the label table); C04 now assembles every text a second time on the same simulation (C13's reload check caught the twin C13-m1 from the start)",
 }
 
